@@ -8,7 +8,17 @@ use crate::run::{hash_bytes, CaseResult, Ctx, Property, Tier};
 use crate::tape::Gen;
 
 fn check_rt(what: &str, b: &[u8], rt: Result<RoundTrip, String>, ctx: &mut Ctx) -> CaseResult {
-    let rt = rt.map_err(|e| format!("{}: {} (input {})", what, e, hex_trunc(b, 200)))?;
+    let rt = match rt {
+        Ok(rt) => rt,
+        Err(e) if e.starts_with("own encoding") && crate::cbor::has_bignum_over_indefinite_bstr(b) => {
+            // the same known finding in its other manifestation: the definite-length re-encoding of a
+            // 16-byte bignum whose magnitude does not fit the library's integer is not even read back
+            return ctx.known("decode-encode:bignum-tag-over-indefinite-length-bstr", "value changes across decode-encode-decode").map_err(|_| {
+                format!("{}: {} [tag 2/3 over an indefinite-length byte string] (input {})", what, e, hex_trunc(b, 200))
+            });
+        }
+        Err(e) => return Err(format!("{}: {} (input {})", what, e, hex_trunc(b, 200))),
+    };
     if !rt.debug_eq && crate::cbor::has_bignum_over_indefinite_bstr(b) {
         // known finding: signature decided on the input shape alone
         return ctx.known("decode-encode:bignum-tag-over-indefinite-length-bstr", "value changes across decode-encode-decode").map_err(|_| {
